@@ -34,6 +34,7 @@
 
 #include <stdlib.h>
 #include <string.h>
+#include <errno.h>
 
 /** Generic directory attribute template. */
 const struct attr_template dir_template = {
@@ -538,6 +539,10 @@ alloc_attr_template(const struct attr_template *tmpl,
  * Look up the attribute @p path under @p dir. If the attribute does not
  * exist yet, create it with type @p type. If @p path contains dots, then
  * all path elements are also created as necessary.
+ *
+ * Fail with @c errno set to @c ENOTDIR if an existing path element is
+ * not a directory, and with @c EISDIR or @c EEXIST if the attribute
+ * already exists with a type different from that of @p atmpl.
  */
 struct attr_data *
 create_attr_path(struct attr_dict *dict, struct attr_data *dir,
@@ -555,6 +560,19 @@ create_attr_path(struct attr_dict *dict, struct attr_data *dir,
 			attr = dir;
 			break;
 		}
+
+	if (endp != endpath) {
+		/* Only a directory can get children. */
+		if (attr->template->type != KDUMP_DIRECTORY) {
+			errno = ENOTDIR;
+			return NULL;
+		}
+	} else if (attr->template->type != atmpl->type) {
+		errno = attr->template->type == KDUMP_DIRECTORY
+			? EISDIR
+			: EEXIST;
+		return NULL;
+	}
 
 	while (endp && endp != endpath) {
 		p = endp + 1;
